@@ -11,6 +11,8 @@ import time
 import traceback
 
 os.environ.setdefault('TQDM_DISABLE', '1')
+import logging  # noqa: E402
+logging.disable(logging.CRITICAL)      # phylib / mtscomp log to stderr/stdout; not part of the check output
 VERIF = os.path.dirname(os.path.dirname(os.path.abspath(__file__)))
 sys.path.insert(0, VERIF)
 
